@@ -89,7 +89,12 @@ func verifParen(e grammar.IExpressionContext) grammar.IExpressionContext {
 func verifIdentifier(name string) *grammar.IdentifierContext {
 	id := new(grammar.IdentifierContext)
 	grammar.InitEmptyIdentifierContext(id)
-	verifAdd(id, verifTokT(grammar.VerifTokIDENTIFIER, name))
+	// a name written in backticks is a DELIMITEDIDENTIFIER token, backticks included
+	if len(name) > 0 && name[0] == '`' {
+		verifAdd(id, verifTokT(grammar.VerifTokDELIMITEDIDENTIFIER, name))
+	} else {
+		verifAdd(id, verifTokT(grammar.VerifTokIDENTIFIER, name))
+	}
 	return id
 }
 
